@@ -22,10 +22,15 @@ def tifa_analysis(code=None, report=MAIN_REPORT):
     """
     if code is None:
         code = report.submission.main_code
-    if code in report[TIFA_TOOL_NAME]['analyses']:
-        return report[TIFA_TOOL_NAME]['analyses'][code]
+    # The same text analysed at another position in the file (e.g., two identical
+    # sections) reports different line numbers, so the offset is part of the key.
+    submission = report.submission
+    line_offset = submission.line_offsets.get(submission.main_file, 0) if submission else 0
+    cache_key = (code, line_offset)
+    if cache_key in report[TIFA_TOOL_NAME]['analyses']:
+        return report[TIFA_TOOL_NAME]['analyses'][cache_key]
     result = report[TIFA_TOOL_NAME]['instance'].process_code(code)
-    report[TIFA_TOOL_NAME]['analyses'][code] = result
+    report[TIFA_TOOL_NAME]['analyses'][cache_key] = result
     report[TIFA_TOOL_NAME]['latest'] = result
     return result
 
